@@ -7,3 +7,4 @@ CONSTANTS
   MaxRound = 1
 INVARIANTS TypeOK NoHonestEquivocation VoteproofAgreement ChainAgreement SavedOnlyAgreed ChainLinked OneProposalPerPoint
 CHECK_DEADLOCK FALSE
+PROPERTIES LastMonotone BoxLastMonotone
